@@ -62,21 +62,23 @@ def gen_case(rng, focus=None):
     return {"has_in": has_in, "has_t": has_t, "warn": warn, "pty": pty, "echo_opt": echo_opt, "in_tty": in_tty,
             "hold": hold, "start_fails": start_fails, "read_size": read_size,
             "out": [hexs(c) for c in outc], "err": [hexs(c) for c in errc], "ins": ins, "sched": sched,
-            "hide": rng.choice([True, True, False, "out", "err", "both", None]), "explicit": rng.random() < 0.4}
+            "hide": rng.choice([True, True, False, "out", "err", "both", None]), "explicit": rng.random() < 0.4,
+            "async": rng.random() < 0.25}
 
 
 def hidden_flags(c):
     """(stdout hidden, stderr hidden): `hide` only applies to streams that were not given explicitly"""
     if c.get("explicit", True):
         return False, False
-    h = c.get("hide")
+    h = True if c.get("async") else c.get("hide")  # "Always hide if async"
     return h in (True, "both", "out", "stdout"), h in (True, "both", "err", "stderr")
 
 
 def model_line(c):
     ho, he = hidden_flags(c)
     flags = ",".join(str(int(x)) for x in (c["has_in"], c["has_t"], c["warn"], c["pty"])) + \
-        ",%d,%d,%d,%d,%d,%d,%d" % (c["echo_opt"], int(c["in_tty"]), int(c["hold"]), int(c["start_fails"]), c["read_size"], int(ho), int(he))
+        ",%d,%d,%d,%d,%d,%d,%d,%d" % (c["echo_opt"], int(c["in_tty"]), int(c["hold"]), int(c["start_fails"]), c["read_size"], int(ho), int(he),
+                                      int(c.get("async", False)))
     ins = ",".join("~" if x == "~" else "$" if x == "$" else hexs(x.encode()) for x in (c["ins"] or []))
     return "|".join([flags, ",".join(c["out"]), ",".join(c["err"]), ins, ",".join(c["sched"])])
 
@@ -92,7 +94,7 @@ def run_impl(c):
     return gate.run_schedule(c["sched"], out=[binascii.unhexlify(x) for x in c["out"]],
                              err=[binascii.unhexlify(x) for x in c["err"]], in_script=in_script, in_tty=c["in_tty"],
                              pty=c["pty"], hold_open=c["hold"], start_fails=c["start_fails"], read_size=c["read_size"],
-                             explicit_streams=c.get("explicit", True), **kw)
+                             explicit_streams=c.get("explicit", True), asynchronous=c.get("async", False), **kw)
 
 
 def codes(s):
